@@ -14,18 +14,19 @@ presented at the event -- start with LGOOD(last accepted sequence number; 7 afte
 sent while disabled, the advertisement completes within 200 PHY-ready cycles, the queue is empty and the next header
 (numbered from the advertisement) is accepted and delivered.
 
-Second scenario family (8 scenarios in every 400; engines/usb3_link_layer.py): the complete, unmodified USB3LinkLayer (LTSSM +
-training-set transceiver + idle handshake + timers + transmitter + header receiver + arbiter as wired by layer.py) against a
-host model sitting where the PHY would be.  `enable` and `usb_reset` of the header receiver are then whatever layer.py derives
-from the LTSSM, and the statement's "re-enabled after leaving U0, or after a USB reset" is exercised through every way the real
-link leaves and re-enters U0: Recovery (host- and device-initiated), Hot Reset (TS2 Reset bit), Warm Reset (LFPS), VBUS loss, and
-Recovery with a Warm Reset during the outage -- each after a drawn number of accepted headers and a drawn distance from the last
-event that makes the device send a link command.  The oracle is the same statement observed at the PHY-side sink and at
-`header_source`: after every rise of `trained` the commands start with LGOOD(7 if a USB reset happened since the last U0, else
-the last accepted number) + LCRD_A..D, no command while `trained` is low (beyond one in flight), and headers numbered from the
-advertisement are acknowledged, delivered unchanged and do not throw the link out of U0.  The 65536-TSEQ burst of Polling.RxEQ is
-fast-forwarded by pre-loading the TSEQ emitter's burst counter (see the engine's docstring); the thorough tier also plays it in
-full.
+Second scenario family (18 scenarios at the start of the quick tier, 12 in every 512 in the thorough tier;
+engines/usb3_link_layer.py): the complete, unmodified USB3LinkLayer (LTSSM + training-set transceiver + idle handshake
++ timers + transmitter + header receiver + arbiter as wired by layer.py) against a host model sitting where the PHY
+would be. `enable` and `usb_reset` of the header receiver are then whatever layer.py derives from the LTSSM, and the
+statement's "re-enabled after leaving U0, or after a USB reset" is exercised through every way the real link leaves
+and re-enters U0: Recovery (host- and device-initiated), Hot Reset (TS2 Reset bit), Warm Reset (LFPS), VBUS loss, and
+Recovery with a Warm Reset during the outage -- each after a drawn number of accepted headers and a drawn distance
+from the last event that makes the device send a link command. The oracle is the same statement observed at the PHY-
+side sink and at `header_source`: after every rise of `trained` the commands start with LGOOD(7 if a USB reset
+happened since the last U0, else the last accepted number) + LCRD_A..D, no command while `trained` is low (beyond one
+in flight), and headers numbered from the advertisement are acknowledged, delivered unchanged and do not throw the
+link out of U0. The 65536-TSEQ burst of Polling.RxEQ is fast-forwarded by pre-loading the TSEQ emitter's burst counter
+(see the engine's docstring); the thorough tier also plays it in full.
 """
 
 import hashlib
@@ -71,28 +72,29 @@ META = {
         "device's, sends headers only with credit, and no header within 5 cycles before reset signalling; it never sends header packets of its "
         "own to be retried (a corrupted header is only ever the last one before leaving U0)",
         "link-layer scenarios: a USB reset is: the Hot Reset handshake (host sent TS2 with Reset until the device answered with Reset TS2s), "
-        "LFPS Warm Reset signalling (1..200 cycles), or VBUS loss (1..200 cycles)",
+        "LFPS Warm Reset signalling (1..200 cycles), or VBUS loss (1..200 cycles); a link that fails to train / re-train at all is reported as a "
+        "harness error (the LTSSM is not C38's subject)",
         "link-layer scenarios: one command counts as in flight if the sink started to present it no later than 2 cycles after `trained` fell "
         "(1 as stand-alone + 1 for the registered arbiter), or if the sink has carried no logical idle since then (training sets have "
         "precedence in the arbiter, so the receiver may have been presenting the command since the link went down); deliveries on "
         "header_source while `trained` is low are attributed to the old epoch",
         "link-layer scenarios: Polling.RxEQ is fast-forwarded by pre-loading the TSEQ emitter's ordered-set counter with 65536 - k (k = 2..24) in the "
-        "first RxEQ cycle (simulation state pre-load, no code is patched, all wiring real); thorough tier: 1 in 2400 scenarios plays the full burst"],
+        "first RxEQ cycle (simulation state pre-load, no code is patched, all wiring real); thorough tier: 1 in 2048 scenarios plays the full burst"],
     "rule": "C37 traffic with 2-5 crash episodes per run: disable (len 1..200, optional reset during / on the edge) or reset strobe, placed 0..18 cycles after "
             "an op that triggers a link command (hdr / bad hdr / retry_required / keepalive / lxu); distinct = FSM vectors + fault kinds + crash-point classes"
-            " || 8 of every 400 scenarios drive the complete USB3LinkLayer: power-on bring-up, then 2-3 (thorough: 2-4) U0 epochs each with 0-6 headers / "
+            " || 18 scenarios of the quick tier (thorough: 12 of every 512) drive the complete USB3LinkLayer: power-on bring-up, then 2-3 (thorough: 2-4) U0 epochs each with 0-6 headers / "
             "idle / LGO_U1 and optionally a trigger (corrupted header, LGO_U1, ~1250 idle cycles for a keep-alive), left 0..40 cycles later by "
             "recovery | hot_reset | warm_reset | vbus | bad_seq (device-initiated recovery) | recovery_warm (first kind rotates over all six, so "
             "each is reached in the quick tier), some before the host has seen the advertisement; PHY-ready and consumer stall patterns; 1..4 "
             "headers after the last re-entry",
 }
-TIERS = {"quick": {"runs": 2500, "wall": 70}, "thorough": {"runs": 30000, "wall": 900}}
+TIERS = {"quick": {"runs": 2500, "wall": 70}, "thorough": {"runs": 30000, "wall": 900, "watchdog": 1500}}
 
 RULEMAP = {"readvertise": "C38.readvertise", "fresh_state": "C38.fresh_state", "progress": "C38.progress"}
 
 
 def gen(rng, tier, index):
-    if is_link_layer_index(index):
+    if is_link_layer_index(index, tier):
         return gen_link_layer(rng, tier, index)
     cfg = c37.gen_config(rng)
     cfg["eager"] = int(rng.random() < 0.7)
@@ -146,27 +148,38 @@ def gen(rng, tier, index):
 # --------------------------------------------------------------------------------------------------
 # composed link layer (engines/usb3_link_layer.py)
 # --------------------------------------------------------------------------------------------------
-# LL_GROUP consecutive scenarios in every LL_PERIOD drive the complete USB3LinkLayer (consecutive: they land in one runner chunk, so
-# that few workers have to elaborate and compile the whole link layer, which costs 2-8 s)
-LL_PERIOD = 400
-LL_GROUP = 8
-LL_FIRST = 1
-LL_FULL_EVERY = 2400       # thorough tier: one in LL_FULL_EVERY plays the complete 65536-TSEQ burst (no fast-forward)
+# Which scenarios drive the complete USB3LinkLayer: positions 1..LL_GROUP of a block of 32 consecutive indices (32 = the runner's
+# chunk size: a group lands in one chunk, so that few workers have to elaborate and compile the whole link layer, which costs
+# 2-20 s), in the first LL_QUICK_BLOCKS blocks in the quick tier (they start at once: no tail), in LL_THOROUGH_BLOCKS of every
+# LL_BLOCK_PERIOD blocks in the thorough tier.
+LL_BLOCK = 32
+LL_GROUP = 6
+LL_QUICK_BLOCKS = 3
+LL_BLOCK_PERIOD = 16
+LL_THOROUGH_BLOCKS = 2
+LL_FULL_PERIOD = 64        # thorough tier: the last scenario of the group in every LL_FULL_PERIOD-th block plays the complete
+                           # 65536-TSEQ burst (no fast-forward)
+
+
+def is_link_layer_index(index, tier="quick"):
+    block, pos = divmod(index, LL_BLOCK)
+    if not 1 <= pos <= LL_GROUP:
+        return False
+    return block < LL_QUICK_BLOCKS if tier == "quick" else block % LL_BLOCK_PERIOD < LL_THOROUGH_BLOCKS
+
+
+def ll_ordinal(index):
+    block, pos = divmod(index, LL_BLOCK)
+    return block * LL_GROUP + pos - 1
+
+
 LL_ROTATION = ["hot_reset", "recovery", "warm_reset", "bad_seq", "vbus", "recovery_warm"]
 LL_EXITS = ["recovery", "recovery", "recovery", "hot_reset", "hot_reset", "hot_reset", "warm_reset", "warm_reset", "vbus", "bad_seq",
             "recovery_warm"]
 
 
-def is_link_layer_index(index):
-    return LL_FIRST <= index % LL_PERIOD < LL_FIRST + LL_GROUP
-
-
-def ll_ordinal(index):
-    return (index // LL_PERIOD) * LL_GROUP + index % LL_PERIOD - LL_FIRST
-
-
 def gen_link_layer(rng, tier, index):
-    full = tier == "thorough" and index % LL_FULL_EVERY == LL_FIRST + LL_GROUP - 1
+    full = tier == "thorough" and index % LL_BLOCK == LL_GROUP and (index // LL_BLOCK) % LL_FULL_PERIOD == 0
     k = rng.choice(["always", "always", "half", "rand", "sparse"])
     ready = {"always": [1], "half": [1, 0], "sparse": [1] + [0] * rng.randint(2, 3)}.get(k) or c37.pattern(rng, ("rand",))
     if full or all(ready):
@@ -179,6 +192,8 @@ def gen_link_layer(rng, tier, index):
     # every reset kind / plain recovery leads the list in turn, so that a small number of scenarios covers all of them
     kinds[0] = LL_ROTATION[ll_ordinal(index) % len(LL_ROTATION)]
     if full:
+        # (one 65536-TSEQ burst per scenario: only the ways out of U0 that do not start the bring-up over)
+        kinds[0] = ["hot_reset", "recovery", "bad_seq"][(index // LL_BLOCK // LL_FULL_PERIOD) % 3]
         kinds = [k if k not in ("warm_reset", "vbus", "recovery_warm") else "hot_reset" for k in kinds]
     ops = []
 
@@ -250,7 +265,14 @@ def ll_max_cycles(scn):
 
 
 def execute_link_layer(scn):
-    bench = LL.link_layer_bench()
+    try:
+        bench = LL.link_layer_bench()
+    except LL.FastForwardUnavailable:
+        # a renamed internal counter must not turn into an alarm or a harness error: skip, and say so in the probes
+        probes = {p: 0 for p in PROBES}
+        probes["ll_skipped_fast_forward_unavailable"] = 1
+        return {"violations": [], "cycles": 0, "faults": {}, "probes": probes, "sig": "ll-skipped", "nontrivial": False,
+                "digest": "skipped", "fsm": 0}
     viol = Violations()
     probes = {p: 0 for p in PROBES}
     faults = {}
